@@ -3,3 +3,5 @@ import OlVerif.Props.C02
 #print axioms OlVerif.C02.one_line_oneliner
 #print axioms OlVerif.C02.int_leaf_clean
 #print axioms OlVerif.C02.own_text_one_line
+#print axioms OlVerif.C02.wf_output
+#print axioms OlVerif.C02.output_is_expression
